@@ -171,6 +171,23 @@ def property_checks(inp):
         cst = cen.correlation_centroid(st2.copy(), ref.copy(), threshold=0.3, padding=pad)
         alone = numpy.array([cen.correlation_centroid(f.copy(), ref.copy(), threshold=0.3, padding=pad)[:, 0] for f in st2]).T
         A(("correlation centroid: stack = frames alone (frames on different background levels)", nandiff(cst, alone), 1e-9))
+        # edge-to-edge displacement: the reference spot near one corner, the frame's spot near the opposite one; with a padded
+        # correlation (padding >= 2) the displacement, up to the frame size, is still unambiguous and must be reported exactly
+        if pad >= 2 and not (n % 2 == 1 and pad % 2 == 0):
+            def nspot(cy, cx):
+                return numpy.exp(-((x - cx) ** 2 + (y - cy) ** 2) / 0.5)
+            a_, b_ = inp.get("edge", [2, n - 3])
+            e_ref, e_img = nspot(a_, a_), nspot(b_, a_ + 1)
+            ce = cen.correlation_centroid(e_img[None].copy(), e_ref.copy(), threshold=0.3, padding=pad)
+            A(("correlation centroid displaced by the shift for displacements up to the frame size (padding >= 2)",
+               float(abs(ce[0, 0] - (n // 2 + 1)) + abs(ce[1, 0] - (n // 2 + b_ - a_))), 0.05))
+        # very faint and very bright frames (physical units): the centroid does not depend on the unit
+        for sc_ in (1e-18, 1e-30, 1e18):
+            A(("centre of gravity / brightest pixel / correlation unchanged by the factor %g" % sc_,
+               max(nandiff(cen.centre_of_gravity((big * sc_).copy()), cen.centre_of_gravity(big.copy())),
+                   nandiff(cen.centre_of_gravity((st * sc_).copy(), threshold=inp["thr"]), cen.centre_of_gravity(st.copy(), threshold=inp["thr"])),
+                   nandiff(cen.brightest_pixel((big * sc_).copy(), inp["frac"]), cen.brightest_pixel(big.copy(), inp["frac"])),
+                   nandiff(cen.correlation_centroid((img * sc_)[None].copy(), ref.copy(), threshold=0.3, padding=pad), cc)), 1e-9))
         # rectangular frames, padding
         ry, rx = inp["rect"]
         yy, xx = numpy.indices((ry, rx))
@@ -187,7 +204,7 @@ def gen_input(rng):
     return {"ny": rng.randint(3, 10), "nx": rng.randint(3, 10), "py": rng.randint(0, 20), "px": rng.randint(0, 20), "amp": rng.uniform(0.5, 50),
             "margin": rng.randint(2, 4), "scale": rng.uniform(0.2, 30), "thr": rng.uniform(0.05, 0.6), "frac": rng.uniform(0.1, 0.9),
             "shift": [rng.randint(-3, 3), rng.randint(-3, 3)], "nf": rng.randint(1, 5), "ncorr": n, "padding": rng.randint(1, 3),
-            "cshift": [rng.randint(-smax, smax), rng.randint(-smax, smax)], "rect": [rng.randint(5, 9), rng.randint(5, 9)], "data_seed": rng.getrandbits(32)}
+            "cshift": [rng.randint(-smax, smax), rng.randint(-smax, smax)], "rect": [rng.randint(5, 9), rng.randint(5, 9)], "edge": rng.choice([[2, n - 3], [n - 3, 2], [3, n - 3], [2, n - 4]]), "data_seed": rng.getrandbits(32)}
 
 
 def falsify(ctx, deep=False):
